@@ -123,37 +123,48 @@ def gz_members(data):
     return text, used
 
 
+def gz_torn_text(rest):
+    """What can still be decompressed out of the bytes behind the last complete gzip member (fed in small blocks so that the
+    output before a corrupt spot is kept)."""
+    d, out = zlib.decompressobj(wbits=31), b''
+    for i in range(0, len(rest), 4096):
+        try:
+            out += d.decompress(rest[i:i + 4096])
+        except zlib.error:
+            break
+        if d.eof: break
+    return out
+
+
+def _parse(s):
+    try:
+        return json.loads(s)
+    except ValueError:
+        return None
+
+
 def analyse(data, gz):
-    """The harness' own reading of what a (possibly torn) log holds.
-    -> records: parsed json (None when undecodable) of every newline-terminated line (gz: of the complete gzip members);
-       tail: something follows the last complete record; tail_record: that rest parsed, when it is the whole JSON text of a
-       record whose newline / gzip member end is missing (such a record may be kept or redone), else None."""
+    """The harness' own reading of what a (possibly torn) log holds, independent of how the writer framed the file:
+    content = the longest decodable text of the file (plain: the bytes; gz: the complete gzip members plus whatever still
+    decompresses out of the torn rest).
+    -> records: parsed json (None when undecodable) of every line of the content that has its line end and counts as RECORDED;
+       exempt: the last such line when it lies in the torn rest of a gz file (it is the last, possibly partly written, record: it may
+               be kept or redone); tail_record: the unterminated rest of the content parsed, when it is the whole JSON text of a record
+               (may be kept or redone as well), else None; tail: the file ends in something partial (unterminated text / torn gz bytes)."""
     if gz:
-        text, used = gz_members(data)
-        raw_tail = data[used:]
-        if raw_tail:          # what a reader may still get out of the torn member (its record counts as "maybe there")
-            try:
-                text += zlib.decompressobj(wbits=31).decompress(raw_tail).rstrip(b'\n')
-            except zlib.error:
-                pass
+        whole, used = gz_members(data)
+        raw_tail = len(data) > used
+        torn = gz_torn_text(data[used:]) if raw_tail else b''
     else:
-        text, raw_tail = data, b''
-    segs = text.split(b'\n')
-    recs = []
-    for s in segs[:-1]:
-        if not s.strip(): continue
-        try:
-            recs.append(json.loads(s))
-        except ValueError:
-            recs.append(None)
-    tail = segs[-1]
-    tail_rec = None
-    if tail.strip():
-        try:
-            tail_rec = json.loads(tail)
-        except ValueError:
-            tail_rec = None
-    return {'records': recs, 'tail': bool(tail.strip()) or bool(raw_tail), 'tail_record': tail_rec, 'gz_torn_member': bool(raw_tail)}
+        whole, torn, raw_tail = data, b'', False
+    segs = (whole + torn).split(b'\n')
+    recs = [_parse(x) for x in segs[:-1] if x.strip()]
+    tail = segs[-1].strip()
+    exempt = []
+    if not tail and raw_tail and torn.strip() and recs:
+        exempt = [recs.pop()]          # the content ends with a line end, but that line ends inside the torn rest
+    return {'records': recs, 'exempt': [r for r in exempt if r is not None], 'tail': bool(tail) or raw_tail,
+            'tail_record': _parse(tail) if tail else None}
 
 
 def position(data, gz, complete=False):
@@ -198,6 +209,46 @@ def reorder(lines, how):
     elif how == 'rot': body = body[len(body) // 2:] + body[:len(body) // 2]
     elif how != 'asis': raise ValueError(how)
     return head + body
+
+
+BLOCK = 2 ** 16          # the buffer size that is visible in the recovery code (Experiment._drop_unfinished_line / _member)
+
+
+def record_ends(data, gz):
+    """End offsets (in the file) of the records of a COMPLETE log: line ends (plain) / gzip member ends (gz)."""
+    ends = []
+    if not gz:
+        i = data.find(b'\n')
+        while i >= 0:
+            ends.append(i + 1); i = data.find(b'\n', i + 1)
+        return ends
+    rest = data
+    while rest:
+        d = zlib.decompressobj(wbits=31)
+        d.decompress(rest)
+        if not d.eof: break
+        rest = d.unused_data
+        ends.append(len(data) - len(rest))
+    return ends
+
+
+def block_offsets(data, gz):
+    """The STATED finite set of cut offsets of a log with one record longer than two blocks: with n = |file| and [a,b) the extent of
+    the longest record, every offset base + j*BLOCK + d and base - j*BLOCK + d for base in {0, a, b, n}, j = 0,1,2,..., d in -3..3
+    (block boundaries counted from the start of the file, from the start and the end of the long record and from the END of the file,
+    and the first / last 3 bytes of the long record), plus e-1, e, e+1 for every record boundary e; clipped to 0..n."""
+    n = len(data)
+    ends = record_ends(data, gz)
+    starts = [0] + ends[:-1]
+    a, b = max(zip(starts, ends), key=lambda ab: ab[1] - ab[0])
+    ks = set()
+    for base in (0, a, b, n):
+        for j in range(n // BLOCK + 2):
+            for d in range(-3, 4):
+                ks.add(base + j * BLOCK + d); ks.add(base - j * BLOCK + d)
+    for e in ends:
+        ks.update((e - 1, e, e + 1))
+    return sorted(k for k in ks if 0 <= k <= n), (a, b)
 
 
 class C02(Check):
@@ -248,6 +299,10 @@ class C02(Check):
         for kind in ('plain', 'gz'):
             for lines in ('asis', 'rev') if quick else ('asis', 'rev', 'rot'):
                 yield {'shape': 'S1', 'order': [0], 'lines': lines, 'kind': kind, 'level2': not quick}
+        for order in ([0, 1, 2],) if quick else ([0, 1, 2], [1, 0, 2], [2, 1, 0]):
+            for kind in ('plain', 'gz'):
+                for lines in ('asis',) if quick else ('asis', 'rev', 'rot'):
+                    yield {'shape': 'S5', 'order': order, 'lines': lines, 'kind': kind, 'offsets': 'blocks'}
         o2 = ORD_S2_QUICK if quick else [list(p) for p in itertools.permutations(range(4))]
         o4 = ORD_S4_QUICK if quick else [list(p) for p in itertools.permutations(range(4))]
         for shape, orders in (('S2', o2), ('S4', o4)):
@@ -262,7 +317,7 @@ class C02(Check):
     def cases(self, tier):
         for h in self.histories(tier):
             for cfg in self.RESUME_CONFIGS:
-                n = {'S1': 6, 'S2': 16, 'S4': 24}[h['shape']] * (3 if h['kind'] == 'gz' else 2) // 2
+                n = {'S1': 6, 'S2': 16, 'S4': 24, 'S5': 16}[h['shape']] * (3 if h['kind'] == 'gz' and h['shape'] != 'S5' else 2) // 2
                 for i in range(n):
                     yield {**h, 'config': cfg, 'chunk': [i, n]}
 
@@ -348,7 +403,7 @@ class C02(Check):
         ids2tags = parts.triple_ids(h['shape'], h['order'])
         a = analyse(data, gz)
         have = rec_ids(a['records'])
-        maybe = rec_ids([a['tail_record']]) if a['tail_record'] is not None else {'I': [], 'E': [], 'L': [], 'V': []}
+        maybe = rec_ids(a['exempt'] + ([a['tail_record']] if a['tail_record'] is not None else []))     # may be kept or redone
         path = self._path('cut', gz)
         with open(path, 'wb') as f: f.write(data)
         found = []
@@ -359,7 +414,7 @@ class C02(Check):
 
         def bad(key, what, fine=False):
             found.append(key)
-            acc.violation(f'{key}|{feature if fine else coarse}', what, witness)
+            acc.violation(f'{key}|{feature if fine else coarse}', what if len(what) <= 700 else what[:700] + ' ...', witness)
 
         try:
             # ---- (d) the truncated file is readable and shows what is complete in it
@@ -406,7 +461,7 @@ class C02(Check):
                     d = table_diff(snap[name], st[1][name])
                     if d: bad(f'file|Result.from_file of the resumed file differs from the returned Result ({name}: {d[0]})', d[1])
             fin = analyse(final, gz)
-            fids = rec_ids(fin['records'] + ([fin['tail_record']] if fin['tail_record'] is not None else []))
+            fids = rec_ids(fin['records'] + fin['exempt'] + ([fin['tail_record']] if fin['tail_record'] is not None else []))
             dup = sorted({t for t in fids['I'] if fids['I'].count(t) > 1})
             if dup: bad('file|interaction record written twice', f'triples {dup} occur {[fids["I"].count(t) for t in dup]} times in the final file')
             for c, name in REC_TABLE.items():
@@ -424,6 +479,11 @@ class C02(Check):
         n = len(L)
         if 'k' in case:
             ks = [case['k']]
+        elif h.get('offsets') == 'blocks':      # a log with a record of several blocks: the stated finite offset set, not every prefix
+            allk, (a0, b0) = block_offsets(L, gz)
+            if b0 - a0 <= 2 * BLOCK: raise HarnessError(f'the long record of {h} is only {b0 - a0} bytes')
+            i, N = case['chunk']
+            ks = allk[i * len(allk) // N:(i + 1) * len(allk) // N]
         else:
             i, N = case['chunk']
             ks = range(i * (n + 1) // N, (i + 1) * (n + 1) // N)
@@ -435,7 +495,7 @@ class C02(Check):
             acc.count('prefixes')
             if k < n and analyse(data, gz)['tail']:
                 acc.mark_nontrivial(hkey + [k]); acc.count('prefixes_cut_inside_a_record')
-            base = {kk: v for kk, v in case.items() if kk not in ('chunk', 'k', 'k2', 'level2')}
+            base = {kk: v for kk, v in case.items() if kk not in ('chunk', 'k', 'k2', 'level2', 'offsets')}
             final = self.crash_point(h, data, ref, acc, feature, {**base, 'k': k})
             if not (h.get('level2') or 'k2' in case) or final is None: continue
             # ---- second-level crashes: the resumed run is killed as well
